@@ -165,8 +165,8 @@ def srvOracle (o : SrvObs) : Option String :=
     some "credentials-offered-without-tls"
   else if !o.insecure && o.preauth && plainCaps.any hasAuthCap then
     some "credentials-offered-without-tls"
-  -- 5. once TLS is active they are offered
-  else if (capsBeforeLogin o.ptrans).any (fun l => !hasAuthCap l || l.contains "LOGINDISABLED") then
+  -- 5. once TLS is active they are offered (to a client that is not authenticated yet)
+  else if !o.preauth && (capsBeforeLogin o.ptrans).any (fun l => !hasAuthCap l || l.contains "LOGINDISABLED") then
     some "credentials-not-offered-inside-tls"
   else none
 
